@@ -62,6 +62,8 @@ Keywords / input classes / STATE that the base stream never produces; the oracle
                are column names: ``kn``); Series facets on a column of a shuffled frame; Index.drop_duplicates / unique with
                split_every / split_out / shuffle_method; 5-12 input partitions with split_every 2 / 3 (an intermediate combine
                level, or a shuffle wider than split_out).
+Value class: in a tenth of the audit shuffle / dedup cases the float key ``c`` holds BOTH ``-0.0`` and ``0.0`` (equal values, different
+bit patterns; label feature ``float-key-with-negative-and-positive-zero``).
 Sibling monitor (vf/mon/siblings.py) on audit cases with the deterministic task shuffle: the collection next to one that differs in
 na_position / ascending / ignore_index (sort), drop (set_index), keep (drop_duplicates), npartitions (shuffle), both in one graph.
 
@@ -125,21 +127,36 @@ ASSUMPTIONS = [
     "partitions are what dask.compute(*r.to_delayed()) / r.partitions[i] return; sync scheduler; pyarrow import stub",
 ]
 BUDGET = {"quick": 110, "thorough": 800}
-_QF = {"shuffles_checked": 250, "shuffle_key_sets_checked": 240, "shuffle_partitions_observed": 1100,
-       "multi_stage_task_shuffles": 35, "shuffles_with_na_keys": 110, "shuffles_spreading_over_partitions": 200,
-       "shuffle_method_disk": 120, "shuffle_method_tasks": 130, "shuffles_changing_npartitions": 170,
-       "sorts_checked": 230, "sorts_with_na_keys": 110, "sorts_multi_column": 140, "sorts_with_several_output_partitions": 150,
-       "set_index_checked": 240, "set_index_divisions": 75, "set_index_npartitions": 40, "set_index_sorted": 25,
-       "set_index_with_several_output_partitions": 180, "drop_duplicates_checked": 170, "drop_duplicates_with_duplicates": 110,
-       "survivor_checked": 110, "dedup_after_shuffle_with_one_shuffle_layers": 40, "nunique_checked": 50, "unique_checked": 30,
-       "compute_views": 200, "side_divisions_monitor_runs": 200, "inputs_unknown_divisions": 550}
-# (_QF = 45 % of the counts of a 2400-case run; the quick tier runs 1800 cases, the thorough tier 24000)
+_QF = {"shuffles_checked": 278, "shuffle_key_sets_checked": 260, "shuffle_partitions_observed": 2425,
+       "multi_stage_task_shuffles": 44, "shuffles_with_na_keys": 114, "shuffles_spreading_over_partitions": 229,
+       "shuffle_method_disk": 131, "shuffle_method_tasks": 128, "shuffles_changing_npartitions": 187, "sorts_checked": 299,
+       "sorts_with_na_keys": 166, "sorts_multi_column": 180, "sorts_with_several_output_partitions": 211,
+       "set_index_checked": 267, "set_index_divisions": 78, "set_index_npartitions": 38, "set_index_sorted": 23,
+       "set_index_with_several_output_partitions": 215, "drop_duplicates_checked": 209, "drop_duplicates_with_duplicates": 147,
+       "survivor_checked": 88, "dedup_after_shuffle_with_one_shuffle_layers": 63, "nunique_checked": 52, "unique_checked": 45,
+       "compute_views": 212, "side_divisions_monitor_runs": 232, "inputs_unknown_divisions": 651,
+       # parameter-audit stream
+       "shuffle_audit_cases": 60, "sort_audit_cases": 86, "set_index_audit_cases": 69, "dedup_audit_cases": 116,
+       "big_frames": 13, "pre_steps_applied": 118, "pre_step_shuffle": 63, "pre_step_merge": 19, "pre_step_groupby": 16,
+       "pre_step_dedup": 8, "dedup_after_knowledge_pre_step": 79, "dedup_subset_equals_known_keys": 27,
+       "dedup_subset_part_of_known_keys": 27, "dedup_subset_superset_of_known_keys": 6, "dedup_subset_as_string": 25,
+       "dedup_tree_reduce_with_intermediate_level": 36, "dedup_shuffle_wider_than_split_out": 18,
+       "series_dedup_after_shuffle": 13, "index_dedup_with_keywords": 6, "ordered_then_head_or_tail": 38,
+       "ordered_then_project_or_filter": 15, "second_operation_on_same_collection": 21, "set_index_nosort": 10,
+       "set_index_sorted_div": 4, "set_index_other_collection": 18, "set_index_x_upsample": 16, "sort_x_upsample": 23,
+       "sorts_on_presorted_input": 17, "sorts_lowered_without_shuffle": 1, "sorts_with_user_sort_function": 21,
+       "shuffle_on_collection_or_column_and_index": 23, "shuffle_then_filter": 6, "shuffle_then_project": 8,
+       "shuffle_x_bignp": 5, "shuffle_x_force": 17, "shuffle_x_ser": 6, "siblings_built": 69, "siblings_computed_together": 32,
+       "siblings_with_different_values": 28,
+       "inputs_with_negative_and_positive_zero_key": 10}
+# (_QF = 45 % of the smallest count of the five quick seeds 0 1 2 7 12345 on the unchanged tree; the quick tier runs 1800 base +
+#  ~900 audit cases, the thorough tier 24000 + ~12000: thorough floors = 12 x quick)
 FLOORS = {
-    "quick": {"evaluations": 800, "distinct_nontrivial": 620, "counters": {k: int(0.75 * v) for k, v in _QF.items()},
-              "sets": {"shuffle_feature": 95, "sort_feature": 70, "dedup_feature": 55, "set_index_feature": 14},
+    "quick": {"evaluations": 1200, "distinct_nontrivial": 1000, "counters": dict(_QF),
+              "sets": {"shuffle_feature": 145, "sort_feature": 125, "dedup_feature": 80, "set_index_feature": 20},
               "max_skipped_fraction": 0.2},
-    "thorough": {"evaluations": 10000, "distinct_nontrivial": 8000, "counters": {k: 9 * v for k, v in _QF.items()},
-                 "sets": {"shuffle_feature": 400, "sort_feature": 280, "dedup_feature": 160, "set_index_feature": 18},
+    "thorough": {"evaluations": 16000, "distinct_nontrivial": 13000, "counters": {k: 12 * v for k, v in _QF.items()},
+                 "sets": {"shuffle_feature": 400, "sort_feature": 280, "dedup_feature": 160, "set_index_feature": 20},
                  "max_skipped_fraction": 0.2},
 }
 EXHAUSTIVE_SPACE = None
@@ -209,6 +226,21 @@ PENDING = {
 # Labels found on the pinned tree and repaired by fixes_ready/C40_0x (documentation only; they are violations wherever the
 # patches are not applied).
 FIXED_BY = {
+    # (parameter audit: the labels of C40_04..10 are ALSO listed in PENDING / known findings until the patches are applied)
+    "C40_04_sort_values_head_tail_na_position": ["sort_values:na-in-keys&na_position=first:head:key-order",
+                                                 "sort_values:na-in-keys&na_position=first:tail:key-order"],
+    "C40_05_set_index_head_tail_keeps_drop": ["set_index:drop=False:head:rows-columns", "set_index:drop=False:tail:rows-columns"],
+    "C40_06_shuffle_on_collection_then_projection": [
+        "shuffle&on-dask-collection:then-project:ValueError@dataframe/dask_expr/_expr.py:__bool__"],
+    "C40_07_no_filter_pushdown_below_collection_key": ["shuffle&on-dask-collection:then-filter:rows", "set_index&other=series:filter:rows"],
+    "C40_08_set_index_series_single_output_partition": [
+        "set_index:other=series&npartitions=1&several-input-partitions:ValueError@dataframe/dask_expr/_shuffle.py:operation"],
+    "C40_09_npartitions_auto_by_memory_use": ["sort_values:npartitions=auto:TypeError@dataframe/dask_expr/_quantiles.py:_layer",
+                                              "set_index:npartitions=auto:TypeError@dataframe/dask_expr/_quantiles.py:_layer"],
+    "C40_10_negative_zero_hashes_like_zero": ["shuffle:float-key-with-negative-and-positive-zero:key-in-two-partitions",
+                                              "drop_duplicates:float-key-with-negative-and-positive-zero:keys",
+                                              "unique:float-key-with-negative-and-positive-zero:values",
+                                              "nunique:float-key-with-negative-and-positive-zero:value"],
     "C40_01_sort_values_na_position": [
         "sort_values:na-in-first-key&na_position=first:graph:key-order"],
     "C40_02_presorted_shortcut_with_nulls": [
@@ -661,6 +693,8 @@ def run_case(case, ctx):
         ctx.op(case["op"])
         if not ddf.known_divisions:
             ctx.count("inputs_unknown_divisions")
+        if (case.get("x") or {}).get("pmzero"):
+            ctx.count("inputs_with_negative_and_positive_zero_key")
         {"shuffle": _shuffle, "sort": _sort, "set_index": _set_index, "dedup": _dedup}[case["op"]](case, ctx, pdf, ddf)
 
 
